@@ -1,11 +1,37 @@
-import SieveModel.Lemmas.Reader
-import SieveModel.Model.Client
-/-! # C17 — names and bodies come back as stored (theorems follow) -/
+import SieveModel.Lemmas.ReplyLine
+/-!
+# C17 — Names and bodies come back exactly as the server holds them
+
+* `literal_content_is_taken_by_count` (T-READ): stored data inside a literal is taken by count and never
+  classified as a protocol line.
+* `literal_body_is_returned_exactly` (reader level, every buffer/stream split, every recv schedule): for
+  a GETSCRIPT-shaped reply `{n}` CRLF ⟨n octets⟩ CRLF `OK` CRLF, whatever the n octets are — lines reading
+  `OK`, `NO`, `BYE`, `{5}`, quotes, NUL, CR/LF mixes — the content handed to the caller is exactly those
+  octets (completed with one CRLF when they do not end with one), the status is OK and exactly the bytes
+  after the reply stay pending.
+Names in listings (quoted / literal encodings, the ACTIVE marker) are decided by the look-alike oracle
+against the reference server; literal-encoded names and quoted-string bodies are known findings.
+-/
 namespace C17
 open Reader
+
 /-- stored data inside a literal is taken by count, never classified as a protocol line -/
 theorem literal_content_is_taken_by_count (n : Nat) (st : RState) (h : n ≤ (pending st).length) :
     ∃ st', readBlock n st = .ok ((pending st).take n, st') ∧ pending st' = (pending st).drop n := by
   obtain ⟨st', h1, h2, _⟩ := (readBlock_spec n st).1 h
   exact ⟨st', h1, h2⟩
+
+/-- a literal body of any content is returned exactly -/
+theorem literal_body_is_returned_exactly (nbl : Option Nat) (st : RState) (ds body rest : Bytes) (hne : ds ≠ [])
+    (hall : ∀ d ∈ ds, B.isDigit d = true) (hval : B.decToNat ds = body.length)
+    (hp : pending st = 123 :: (ds ++ [125]) ++ 13 :: 10 :: (body ++ 13 :: 10 :: (sb "OK" ++ 13 :: 10 :: rest))) :
+    ∃ st', readResponse nbl st =
+        .ok (⟨some .OK, none, if endsWithCRLF body then body else body ++ CRLF⟩, st') ∧ pending st' = rest :=
+  ReplyLine.readResponse_literal_ok nbl st ds body rest hne hall hval hp
+
+/-- non-vacuity: a body made of protocol look-alikes (`OK`, `NO`, `{3}` lines) comes back as it is -/
+example : ∃ st', readResponse none { (default : RState) with buf := sb "{13}\r\nOK\r\nNO\r\n{3}\r\n\r\nOK\r\n" } =
+    .ok (⟨some .OK, none, sb "OK\r\nNO\r\n{3}\r\n"⟩, st') ∧ pending st' = [] :=
+  literal_body_is_returned_exactly none _ (sb "13") (sb "OK\r\nNO\r\n{3}\r\n") [] (by decide) (by decide) (by decide) (by decide)
+
 end C17
